@@ -138,6 +138,7 @@ func buildConc(c *Ctx) *concInfo {
 		ci.c = c
 		return ci
 	}
+	declareLockOwners(c.P)
 	ci := &concInfo{c: c, p: c.P, g: c.P.CallGraph("vta"), funcs: c.P.ModuleFuncs(),
 		must: map[ssa.Instruction]lockSet{}, may: map[ssa.Instruction]lockSet{},
 		entryMust: map[*ssa.Function]lockSet{}, entryMay: map[*ssa.Function]lockSet{}, allLocks: lockSet{}, initFns: map[*ssa.Function]bool{}}
@@ -924,10 +925,33 @@ func perDocumentCounter(m *types.Map) bool {
 
 // ---------- C-LOCKSET ----------
 
-// shared long-lived structs (DESIGN §3.C); a struct with a mutex that is not listed makes the rule undecided.
+// shared long-lived structs (DESIGN §3.C): the structs named here plus, by role, every module struct that owns a
+// mutex (a struct that carries its own lock is meant to be shared between goroutines).
 var sharedStructs = map[string]bool{
 	"server.Server": true, "workspace.Workspace": true, "workspace.WorkspaceIndex": true,
-	"include.Loader": true, "server.semanticTokensCache": true, "cli.Client": true,
+	"include.Loader": true, "cli.Client": true,
+}
+
+func declareLockOwners(p *Prog) {
+	for _, pk := range p.Pkgs {
+		sc := pk.Types.Scope()
+		for _, n := range sc.Names() {
+			tn, ok := sc.Lookup(n).(*types.TypeName)
+			if !ok {
+				continue
+			}
+			st, ok := tn.Type().Underlying().(*types.Struct)
+			if !ok {
+				continue
+			}
+			for i := 0; i < st.NumFields(); i++ {
+				ts := types.TypeString(st.Field(i).Type(), nil)
+				if ts == "sync.Mutex" || ts == "sync.RWMutex" || ts == "*sync.Mutex" || ts == "*sync.RWMutex" {
+					sharedStructs[shortQual(types.TypeString(tn.Type(), nil))] = true
+				}
+			}
+		}
+	}
 }
 
 type fieldAccess struct {
@@ -947,29 +971,6 @@ func (ci *concInfo) modeLocks(ins ssa.Instruction) lockSet { return ci.must[ins]
 
 func ruleLockset(c *Ctx) {
 	ci := buildConc(c)
-	// census: structs with a mutex field
-	for _, pk := range c.P.Pkgs {
-		sc := pk.Types.Scope()
-		for _, n := range sc.Names() {
-			tn, ok := sc.Lookup(n).(*types.TypeName)
-			if !ok {
-				continue
-			}
-			st, ok := tn.Type().Underlying().(*types.Struct)
-			if !ok {
-				continue
-			}
-			for i := 0; i < st.NumFields(); i++ {
-				ts := types.TypeString(st.Field(i).Type(), nil)
-				if ts == "sync.Mutex" || ts == "sync.RWMutex" {
-					name := shortQual(types.TypeString(tn.Type(), nil))
-					if !sharedStructs[name] {
-						c.undecided("C-LOCKSET", name, "lock-owning struct not in the shared-struct table", tn.Pos(), "a struct with a mutex is not covered by the lockset rule's table of shared structs")
-					}
-				}
-			}
-		}
-	}
 	var accs []fieldAccess
 	for _, f := range ci.funcs {
 		if ci.initFns[f] {
